@@ -49,7 +49,7 @@ CLAIMED = {
          "REDUCED SCOPE. Every successful call of the zero-allocation class inside histories that dirty the shared Buffer/destination first (incl. failing calls) must allocate nothing; inputs are drawn per conversion path (exact float, Eisel-Lemire, long mantissa, halfway, subnormal, 18/19/20-digit ints, all escape kinds, depth equal to warmed depth, destination slack exactly 0, in-place and same-arena destinations); the first call after the preconditions hold is measured on its own (after a GC that empties pools), and one operation in twelve is also measured as the very first call of a fresh child process (lazily initialised state).",
          "Buffer warmed only by completed top-level non-re-entrant calls. Path labels come from literal shape. Process-wide Mallocs filtered by integer average + min of 3 attempts.", "DESIGN.md section 4 C19, 6.5"),
  "C20": ("exploration", "simulated histories on one reader/buffer with allocation-byte accounting at every prefix (TotalAlloc <= K*bytes + C*calls), adversarial shapes at growing sizes",
-         "Histories of validate/skip/traverse/decode calls on adversarial shapes (big container then n small siblings, escapes at every level and in every child, deep nesting, megabyte strings) at sizes x1/x10/x100 and 'one large then up to 20,000 small (also failing) documents' on the same reader, and documents decoded the handler way (traverse, decode every member with the long-lived reader); bound K=1024 B/B, C=4 KiB/call evaluated at every prefix, plus a scaling oracle (bytes allocated per input byte must not grow from size x to 10x).",
+         "Histories of validate/skip/traverse/decode calls on adversarial shapes (big container then n small siblings, escapes at every level and in every child, deep nesting, megabyte strings) at sizes x1/x10/x100 and 'one large then up to 20,000 small (also failing) documents' on the same reader, and documents decoded the handler way (traverse, decode every member with the long-lived reader); bound K=1024 B/B, C=64 KiB/call evaluated at every prefix, plus a scaling oracle (bytes allocated per input byte must not grow from size x to 10x) and a differential oracle (small documents after a large one may not cost more than 8x + 1 KiB per call of what they cost on fresh state).",
          "K and C instantiate the statement's 'fixed constants' (3x head-room over the dearest legitimate shape at GOMAXPROCS=1). Realistic pool policy (hit when possible, eviction between calls).", "DESIGN.md section 4 C20, 6.4"),
 }
 
